@@ -17,7 +17,7 @@ def run_one(patch, cid, tier, seed="1", examples=None):
     try:
         repo = os.path.join(work, "repo")
         os.makedirs(repo)
-        subprocess.run(["rsync", "-a", "--exclude", ".git", "--exclude", "docs", "--exclude", "tests", "/repo/", repo + "/"], check=True)
+        subprocess.run(["rsync", "-a", "--exclude", ".git", "--exclude", "docs", "/repo/", repo + "/"], check=True)
         r = subprocess.run(["patch", "-p1", "-s", "-d", repo, "-i", os.path.abspath(patch)], capture_output=True, text=True)
         if r.returncode != 0:
             return {"patch": patch, "status": "PATCH-FAILED", "detail": r.stdout + r.stderr}
